@@ -79,3 +79,148 @@ Proof.
     split; [apply kp_push|]. exists [ECreate a]. split; [rewrite journal_set_obj, journal_push; reflexivity|].
     cbn [vunwind fold_left vundo]. eapply veq_trans; [apply vdrop_veq, HV|]. apply vdrop_vput_none, Hl.
 Qed.
+
+(** ** a journaled update of the object at [a] *)
+Lemma vput_vput kp0 v a o o' : veq (vput kp0 (vput kp0 v a o) a o') (vput kp0 v a o').
+Proof.
+  split; simpl; intros; try reflexivity; unfold upd; destruct (Z.eqb_spec a0 a); subst; reflexivity.
+Qed.
+
+Lemma journaled_set s1 a o e o' :
+  lookup s1 a = Some o ->
+  (forall v, veq (vundo (kp s1) e (vput (kp s1) v a o')) (vput (kp s1) v a o)) ->
+  veq (V (set_obj (push s1 e) a o')) (vput (kp s1) (V s1) a o') /\ ok s1 (set_obj (push s1 e) a o').
+Proof.
+  intros Hl Hu.
+  assert (HV : veq (V (set_obj (push s1 e) a o')) (vput (kp s1) (V s1) a o')).
+  { eapply veq_trans; [apply V_set_obj|]. rewrite kp_push. apply vput_veq, V_push. }
+  split; [exact HV|]. split; [apply kp_push|].
+  exists [e]. split; [rewrite journal_set_obj, journal_push; reflexivity|].
+  cbn [vunwind fold_left]. eapply veq_trans; [apply vundo_veq, HV|].
+  eapply veq_trans; [apply Hu|]. apply vput_lookup, Hl.
+Qed.
+
+Lemma mutator s a (E : obj -> entry) (F : obj -> obj) :
+  (forall v o, veq (vundo (kp s) (E o) (vput (kp s) v a (F o))) (vput (kp s) v a o)) ->
+  let s' := (let '(o, s1) := get_or_new s a in set_obj (push s1 (E o)) a (F o)) in
+  veq (V s') (vput (kp s) (V s) a (F (obj_or_blank s a))) /\ ok s s'.
+Proof.
+  intros Hu. destruct (get_or_new_spec s a) as (Ho & Hl & HV & Hok).
+  destruct (get_or_new s a) as [o s1]. simpl in *. subst o.
+  destruct Hok as (K & Hok'). 
+  destruct (journaled_set s1 a _ (E (obj_or_blank s a)) (F (obj_or_blank s a)) Hl) as (HV2 & Hok2).
+  { intro v. rewrite K. apply Hu. }
+  split.
+  - eapply veq_trans; [exact HV2|]. rewrite K.
+    eapply veq_trans; [apply vput_veq, HV|]. apply vput_vput.
+  - eapply ok_trans; [split; [exact K|exact Hok']|exact Hok2].
+Qed.
+
+(** the object the setters work on shows what the view shows *)
+Lemma aview_blank : aview_of blank_obj = blank. Proof. reflexivity. Qed.
+
+Lemma aview_obj_or_blank s a : aview_of (obj_or_blank s a) = vget_or_new (V s) a.
+Proof. unfold obj_or_blank, vget_or_new. simpl. destruct (lookup s a); reflexivity. Qed.
+Lemma st_obj_or_blank s a k : st (kp s) a (obj_or_blank s a) k = v_stor (V s) a k.
+Proof. unfold obj_or_blank. simpl. destruct (lookup s a); reflexivity. Qed.
+Lemma comm_obj_or_blank s a k : comm (kp s) a (obj_or_blank s a) k = v_comm (V s) a k.
+Proof. unfold obj_or_blank. simpl. destruct (lookup s a); reflexivity. Qed.
+
+Lemma vput_field s a (F : obj -> obj) (G : aview -> aview) :
+  (forall o, aview_of (F o) = G (aview_of o)) ->
+  (forall o k, st (kp s) a (F o) k = st (kp s) a o k) ->
+  (forall o k, comm (kp s) a (F o) k = comm (kp s) a o k) ->
+  veq (vput (kp s) (V s) a (F (obj_or_blank s a))) (vset_acct (V s) a (Some (G (vget_or_new (V s) a)))).
+Proof.
+  intros HG Hs Hc.
+  split; cbn [vput vset_acct vset_stor vset_comm v_acct v_stor v_comm v_refund v_logs v_ala v_als];
+    intros; try reflexivity; unfold upd; destruct (Z.eqb_spec a0 a); subst; try reflexivity.
+  - rewrite HG, aview_obj_or_blank. reflexivity.
+  - rewrite Hs. apply st_obj_or_blank.
+  - rewrite Hc. apply comm_obj_or_blank.
+Qed.
+
+(** reverting a field update *)
+Lemma vundo_field kp0 a e (F : obj -> obj) (G' : aview -> aview) :
+  (forall v, vundo kp0 e v = vmod v a G') ->
+  forall v o,
+  G' (aview_of (F o)) = aview_of o ->
+  (forall k, st kp0 a (F o) k = st kp0 a o k) -> (forall k, comm kp0 a (F o) k = comm kp0 a o k) ->
+  veq (vundo kp0 e (vput kp0 v a (F o))) (vput kp0 v a o).
+Proof.
+  intros He v o HG Hs Hc. rewrite He. unfold vmod.
+  cbn [vput vset_acct vset_stor vset_comm v_acct]. rewrite upd_same.
+  split; cbn [vput vset_acct vset_stor vset_comm v_acct v_stor v_comm v_refund v_logs v_ala v_als];
+    intros; try reflexivity; unfold upd; destruct (Z.eqb_spec a0 a); subst; try reflexivity;
+    rewrite ?Z.eqb_refl; auto.
+  rewrite HG. reflexivity.
+Qed.
+
+(** ** the statement proved for every method *)
+Definition sim_op (o : op) (s : sdb) : Prop :=
+  snd (step_core o s) = snd (vstep o (V s)) /\
+  veq (V (fst (step_core o s))) (fst (vstep o (V s))) /\
+  ok s (fst (step_core o s)).
+
+Ltac vcases a0 a :=
+  cbn [vput vset_acct vset_stor vset_comm vset_refund vset_logs vset_al
+       v_acct v_stor v_comm v_refund v_logs v_ala v_als];
+  intros; try reflexivity; unfold upd; destruct (Z.eqb_spec a0 a); subst; try reflexivity.
+
+(** *** SetNonce / SetCode / AddBalance / SubBalance *)
+Lemma sim_set_nonce s a n : sim_op (OSetNonce a n) s.
+Proof.
+  unfold sim_op. cbn [step_core vstep fst snd]. split; [reflexivity|].
+  destruct (mutator s a (fun o => ENonce a (nonce o)) (fun o => with_nonce o n)) as (HV & Hok).
+  { intros v o. apply (vundo_field (kp s) a _ (fun o => with_nonce o n) (fun x => av_with_nonce x (nonce o)));
+      try reflexivity. }
+  split; [|exact Hok].
+  eapply veq_trans; [exact HV|]. apply (vput_field s a (fun o => with_nonce o n) (fun x => av_with_nonce x n)); reflexivity.
+Qed.
+
+Lemma sim_set_code s a c : sim_op (OSetCode a c) s.
+Proof.
+  unfold sim_op. cbn [step_core vstep fst snd]. split; [reflexivity|].
+  destruct (mutator s a (fun o => ECode a (chash o)) (fun o => with_code o c)) as (HV & Hok).
+  { intros v o. apply (vundo_field (kp s) a _ (fun o => with_code o c) (fun x => av_with_code x (chash o)));
+      try reflexivity. }
+  split; [|exact Hok].
+  eapply veq_trans; [exact HV|]. apply (vput_field s a (fun o => with_code o c) (fun x => av_with_code x c)); reflexivity.
+Qed.
+
+Lemma av_with_bal_same x : av_with_bal x (av_bal x) = x.
+Proof. destruct x; reflexivity. Qed.
+
+Lemma sim_balance_gen s a (d : Z) :
+  let s' := (let '(o, s1) := get_or_new s a in if d =? 0 then s1 else set_balance s1 a o (bal o + d)) in
+  veq (V s') (vset_acct (V s) a (Some (av_with_bal (vget_or_new (V s) a) (av_bal (vget_or_new (V s) a) + d)))) /\
+  ok s s'.
+Proof.
+  destruct (Z.eqb_spec d 0) as [->|Hd].
+  - destruct (get_or_new_spec s a) as (Ho & Hl & HV & Hok).
+    destruct (get_or_new s a) as [o s1]. simpl in *. subst o. split; [|exact Hok].
+    eapply veq_trans; [exact HV|]. rewrite Z.add_0_r, av_with_bal_same.
+    apply (vput_field s a (fun o => o) (fun x => x)); reflexivity.
+  - destruct (mutator s a (fun o => EBalance a (bal o)) (fun o => with_bal o (bal o + d))) as (HV & Hok).
+    { intros v o. apply (vundo_field (kp s) a _ (fun o => with_bal o (bal o + d)) (fun x => av_with_bal x (bal o)));
+        try reflexivity. }
+    unfold set_balance. split; [|exact Hok].
+    eapply veq_trans; [exact HV|].
+    apply (vput_field s a (fun o => with_bal o (bal o + d)) (fun x => av_with_bal x (av_bal x + d))); reflexivity.
+Qed.
+
+Lemma sim_add_balance s a d : sim_op (OAddBalance a d) s.
+Proof.
+  unfold sim_op. cbn [step_core vstep fst snd]. split; [reflexivity|]. apply sim_balance_gen.
+Qed.
+
+Lemma sim_sub_balance s a d : sim_op (OSubBalance a d) s.
+Proof.
+  unfold sim_op. cbn [step_core vstep fst snd]. split; [reflexivity|].
+  pose proof (sim_balance_gen s a (- d)) as H. unfold sub_balance.
+  replace (- d =? 0) with (d =? 0) in H
+    by (destruct (Z.eqb_spec d 0), (Z.eqb_spec (- d) 0); try reflexivity; lia).
+  replace (fun o => bal o - d) with (fun o => bal o - d) in H by reflexivity.
+  destruct (get_or_new s a) as [o s1]. replace (bal o - d) with (bal o + - d) by lia.
+  replace (av_bal (vget_or_new (V s) a) - d) with (av_bal (vget_or_new (V s) a) + - d) by lia. exact H.
+Qed.
